@@ -474,8 +474,142 @@ async def throttle_e2e(loop, ctx):
     return cases
 
 
+# ---------------------------------------------------------------- password file changes
+def run_pwfile_shard(spec):
+    """The password file is replaced (a password changed, an account disabled,
+    an account removed) and several sessions log in at the same moment, under
+    the deterministic scheduler: whatever the interleaving of the file read
+    with the other logins, the *old* password / the disabled or removed account
+    must be refused and the new password accepted."""
+    import shutil
+    import tempfile
+    import time as _time
+    from collections import Counter
+
+    from ..rig import run_case
+    from ..vloop import WallWatchdog, fifo_all_strategy, one_at_a_time_strategy, random_strategy
+
+    counts = Counter()
+    cases = []
+    scratch = spec["scratch"]
+    for k in spec["scripts"]:
+        rnd = rng(spec["seed"], "c18pw", k)
+        change = rnd.choice(["password", "password", "disabled", "removed", "unreadable"])
+        nsess = rnd.choice([2, 3, 4])
+        hashes = set()
+        witness = None
+        nlogins = 0
+        for i in range(spec.get("nsched", 6)):
+            d = tempfile.mkdtemp(prefix="pw", dir=scratch)
+            holder = {}
+
+            async def main(loop, d=d):
+                import asimap.auth as A
+                import asimap.server as S
+                import asimap.throttle as T
+                from asimap.hashers import get_hasher
+
+                holder["loop"] = loop
+                roots = setup_accounts(d)
+                sc = get_hasher("scrypt")
+                T.BAD_USER_AUTHS.clear()
+                T.BAD_IP_AUTHS.clear()
+                problems = []
+
+                async def login(user, pw, addr):
+                    reader = asyncio.StreamReader()
+                    cw = MemWriter("client", loop)
+                    c = S.IMAPClient(FakeServer(), "n", addr, 5, reader, cw)
+                    si = c.subprocess_intf
+                    connected = []
+
+                    async def rec(u, connected=connected):
+                        connected.append(u.username)
+
+                    si.get_and_connect_subprocess = rec
+                    if getattr(loop, "strategy", None) is not fifo_all_strategy:
+                        for _ in range(loop.rng.randint(0, 2)):
+                            await loop.run_in_executor(None, int)
+                    await si.message(f'L1 LOGIN {user} "{pw}"'.encode("latin-1"))
+                    out = bytes(cw.buf).decode("latin-1")
+                    return ("L1 OK" in out, bool(connected), out[-120:])
+
+                # warm-up: the table is loaded with the old file
+                ok, conn, out = await login("alice", PW, "10.9.0.1")
+                if not ok:
+                    return [("harness", "warm-up login failed: " + out)], 0
+                # the administrator replaces the file
+                with open(A.PW_FILE_LOCATION) as f:
+                    lines = f.read().splitlines()
+                NEW = "new horse battery"
+                new_lines = []
+                for ln in lines:
+                    u = ln.split(":", 1)[0]
+                    if u == "alice" and change in ("password", "unreadable"):
+                        new_lines.append(f"alice:{sc.encode(NEW, sc.salt())}:{roots['alice']}")
+                    elif u == "alice" and change == "disabled":
+                        new_lines.append(f"alice:XXX:{roots['alice']}")
+                    elif u == "alice" and change == "removed":
+                        continue
+                    else:
+                        new_lines.append(ln)
+                data = ("\n".join(new_lines) + "\n").encode()
+                if change == "unreadable":
+                    data = b"# caf\xe9 \xff\xfe not utf-8\n" + data
+                with open(A.PW_FILE_LOCATION, "wb") as f:
+                    f.write(data)
+                t = _time.time() + 5 + k % 3
+                os.utime(A.PW_FILE_LOCATION, (t, t))
+                attempts = [("alice", PW, "old")] + [rnd.choice([("alice", PW, "old"), ("alice", NEW, "new"), ("bob", PW, "other")]) for _ in range(nsess - 1)]
+                tasks = [asyncio.create_task(login(u, pw, f"10.9.{j}.7")) for j, (u, pw, kind) in enumerate(attempts)]
+                res = await asyncio.gather(*tasks)
+                # and once more, one at a time, after everything settled
+                res2 = [await login(u, pw, f"10.8.{j}.7") for j, (u, pw, kind) in enumerate(attempts)]
+                n = 0
+                for phase, rr in (("concurrent", res), ("afterwards", res2)):
+                    for (u, pw, kind), (ok, conn, out) in zip(attempts, rr):
+                        n += 1
+                        if kind == "old" and (ok or conn):
+                            problems.append(("replaced-password-still-accepted", f"{phase}: LOGIN {u} with the password the file no longer has (change: {change}) -> {out!r}"))
+                        if kind == "new" and change == "password" and not ok:
+                            problems.append(("new-password-refused", f"{phase}: LOGIN {u} with the new password -> {out!r}"))
+                        if kind == "other" and change != "unreadable" and not ok:
+                            problems.append(("unrelated-account-refused", f"{phase}: LOGIN {u} -> {out!r}"))
+                return problems, n
+
+            try:
+                strategy = fifo_all_strategy if i == 0 else rnd.choice([random_strategy, random_strategy, one_at_a_time_strategy])
+                sd = rnd.randrange(1 << 30)
+                problems, n = run_case(main, seed=sd, scheduled=True, wall_budget=120, strategy=strategy)
+            except WallWatchdog:
+                counts["sched_wall_watchdog"] += 1
+                continue
+            finally:
+                shutil.rmtree(d, ignore_errors=True)
+            if problems and problems[0][0] == "harness":
+                counts["pwfile_harness_trouble"] += 1
+                continue
+            counts["pwfile_schedules"] += 1
+            counts["pwfile_logins_judged"] += n
+            nlogins += n
+            hashes.add(common.h(holder["loop"].trace))
+            if problems and witness is None:
+                witness = {"kind": problems[0][0], "detail": problems[0][1], "all": [x[0] for x in problems], "change": change, "sessions": nsess, "schedule": list(holder["loop"].trace)[:200], "seed": sd, "strategy": strategy.__name__}
+        sample = {"change": change, "sessions": nsess, "distinct_schedules": len(hashes), "logins_judged": nlogins}
+        key = common.h(["pwfile", k, change, nsess])
+        if witness:
+            cases.append(Case.make(f"pwfile{k}", VIOLATED, spec=dict(spec, scripts=[k]), nontrivial=True, key=key, sample=sample, witness=witness))
+        elif not hashes:
+            cases.append(Case.make(f"pwfile{k}", INCONCLUSIVE, spec=dict(spec, scripts=[k]), reason="no schedule completed", sample=sample))
+        else:
+            cases.append(Case.make(f"pwfile{k}", HELD, spec=dict(spec, scripts=[k]), nontrivial=True, key=key, sample=sample))
+    return {"cases": cases, "counts": dict(counts)}
+
+
 def run_shard(spec):
     mode = spec["mode"]
+    if mode == "pwfile":
+        return run_pwfile_shard(spec)
     if mode == "throttle":
         return throttle_function_level(spec)
     if mode == "gate":
@@ -507,6 +641,10 @@ def plan(tier, seed, scale):
         specs.append({"prop": PROP, "tier": tier, "seed": seed, "shard": n + i, "scripts": [n + i], "mode": "gate", "nseq": int((36 if tier == "quick" else 80) * scale)})
     for i in range(ne):
         specs.append({"prop": PROP, "tier": tier, "seed": seed, "shard": n + ng + i, "scripts": [n + ng + i], "mode": "e2e", "nseq": 5 if tier == "quick" else 10})
+    npw = 16 if tier == "quick" else 240
+    shards = 4 if tier == "quick" else 12
+    for j in range(shards):
+        specs.append({"prop": PROP, "tier": tier, "seed": seed, "shard": n + ng + ne + j, "scripts": list(range(npw))[j::shards], "mode": "pwfile", "nsched": 5 if tier == "quick" else 15})
     return specs
 
 
